@@ -318,7 +318,18 @@ pub fn run_sections(seed: u64, n: u64) -> SectionOut {
         let mut rng = Rng::derive(seed, 0xC18, 77);
         for i in 0..n {
             // a scripted server on a loopback port
-            let listener = tokio::net::TcpListener::bind("127.0.0.1:0").await.expect("bind");
+            // (a burst of other loopback traffic can exhaust the ephemeral ports for a minute: wait, do not fail)
+            let mut listener = None;
+            for _ in 0..600 {
+                match tokio::net::TcpListener::bind("127.0.0.1:0").await {
+                    Ok(l) => {
+                        listener = Some(l);
+                        break;
+                    }
+                    Err(_) => tokio::time::sleep(Duration::from_millis(200)).await,
+                }
+            }
+            let listener = listener.expect("bind");
             let port = listener.local_addr().unwrap().port();
             let server = Arc::new(ServerState::default());
             let srv = server.clone();
